@@ -53,10 +53,10 @@ def main(args):
                "jsonschema.validate() -- and for a sample the CLI -- on 13 (schema, instance) pairs on which the drafts "
                "(and the later classes, whose arrays admit tuples) disagree must behave exactly as the selected class applied to its own metaschema and to the instance (and an explicitly given class must win). "
                "Non-trivial: the spelling names a registered id; distinct by (registrations, spelling, default)." % (2 if quick else 3))
-    r = tlc.run("mc/MC_C20.tla", cfg="mc/MC_C20_%s.cfg" % args.tier, workers=8, timeout=3000)
+    r = tlc.run("mc/MC_C20.tla", cfg="mc/MC_C20_%s.cfg" % args.tier, workers=8, timeout=3000, coverage=True)
     if r.violation:
         raise tlc.MachineryFailure("selection model violated: " + r.violation)
-    ck.add_tlc(r)
+    ck.add_tlc(r, "MC_C20")
     base_classes = [js.Draft3Validator, js.Draft4Validator, js.Draft6Validator, js.Draft7Validator]
     tmp = tempfile.mkdtemp(prefix="c20-")
     try:
